@@ -85,6 +85,7 @@ struct Config
     int sector = 4096;
     uint32_t checks = CK_ALL;
     bool table_api = false;  // 2.x: open through v2::engine_library so that actor T shares the connection
+    bool dir_slash = false;  // the directory string handed to the library ends in '/' (the same directory; the string is what directory() echoes)
     bool twice = false;      // execute the plan twice over differently poisoned heap/stack: stored bytes must not depend on indeterminate memory
     std::string profile;
     GenFlags gf;
@@ -323,6 +324,8 @@ struct World
 
     // --- execution
     void run();
+    // the directory as the client spells it when talking to the library (harness code uses the canonical `dir`)
+    std::string api_dir() const { return plan.cfg.dir_slash ? dir + "/" : dir; }
     void exec_step(const Step& s);
     void exec_step_inner(const Step& s);
 
